@@ -390,6 +390,10 @@ type verdict struct {
 	out     string // formatted text (if any)
 	out2    string // format(out)
 	comment string // the offending comment (key) for comment-* classes
+	// comments: ALL offending comments of a comment-* class (every missing comment, every
+	// invented comment, every moved comment).  Each is classified on its own (classifyAll), so a
+	// comment lost at a recorded site never hides a comment lost somewhere else.
+	comments []string
 }
 
 func sortedCopy(xs []string) []string {
@@ -463,14 +467,16 @@ func judge(src string) (v verdict, compiles bool, genErr error) {
 	}
 	// 3. every comment is still present ...
 	inKeys, outKeys := sortedCopy(commentKeys(src)), sortedCopy(commentKeys(out))
-	if strings.Join(inKeys, "\x00") != strings.Join(outKeys, "\x00") {
-		missing := diffMultiset(inKeys, outKeys)
-		extra := diffMultiset(outKeys, inKeys)
+	// (compared as multisets; joining the keys with a separator would make [""] -- one EMPTY
+	// comment `//` or `/**/` -- look like no comment at all)
+	if missing, extra := diffMultiset(inKeys, outKeys), diffMultiset(outKeys, inKeys); len(missing)+len(extra) > 0 {
 		if len(missing) > 0 {
 			v.comment = missing[0]
+			v.comments = missing
 			v.class, v.what = "comment-dropped", fmt.Sprintf("comments missing from output: %q (extra: %q)", missing, extra)
 		} else {
 			v.comment = extra[0]
+			v.comments = extra
 			v.class, v.what = "comment-invented", fmt.Sprintf("comments only in output: %q", extra)
 		}
 		return v, compiles, nil
@@ -489,10 +495,15 @@ func judge(src string) (v verdict, compiles bool, genErr error) {
 				continue // non-unique comment text: ownership is ambiguous, multiset check above applies
 			}
 			if io[k][0] != oo[k][0] {
-				v.comment = k
-				v.class, v.what = "comment-moved", fmt.Sprintf("comment %q attached to %q before and %q after formatting", k, io[k][0], oo[k][0])
-				return v, compiles, nil
+				v.comments = append(v.comments, k)
+				if v.class == "" {
+					v.comment = k
+					v.class, v.what = "comment-moved", fmt.Sprintf("comment %q attached to %q before and %q after formatting", k, io[k][0], oo[k][0])
+				}
 			}
+		}
+		if v.class != "" {
+			return v, compiles, nil
 		}
 	}
 	// 4. idempotence
